@@ -7,6 +7,7 @@ G  spec/js/PrinterGen.tla     spacing / parenthesis hazard scenarios derived fro
 T  spec/js/PrinterTrace.tla   judges the traces recorded by harness/suites/printer for generated and for not-designed inputs
 """
 import json
+import vcheck
 import os
 import re
 
@@ -160,13 +161,28 @@ def run(ck):
     judge(ck, ck.validate("js", "PrinterTrace", "PrinterTrace.cfg", ck.path("gen.ndjson"), timeout=3000), "generated")
 
     extra = []
+    # programs of the statement grammar (C03's generator): statement kinds pairwise and the ASI spellings -- inputs that were not
+    # designed for the printer (e.g. an unbraced loop body followed by a statement that starts with a parenthesis)
+    gp = []
+    for cfg in ("G_stmt1.cfg", "G_asi.cfg") + (("G_stmt2.cfg", "G_classbody.cfg") if thorough else ()):
+        if not os.path.exists(os.path.join(vcheck.SPEC, "js", cfg)):
+            continue
+        cs = ck.path("jsgram-" + cfg + ".ndjson")
+        try:
+            ck.tlc("js", "JsGrammar", cfg, label="JsGrammar programs as extra inputs (%s)" % cfg, env={"VERIF_CASES": cs}, timeout=1500, count=False)
+            ck.drive("jsgram", "inputs", "-cases", cs, "-out", cs + ".progs", "-seed", ck.seed, timeout=1200)
+            gp.append(cs + ".progs")
+        except vcheck.Fatal as ex:
+            ck.notes.append("JsGrammar extra inputs %s skipped: %s" % (cfg, str(ex)[:200]))
+    if gp:
+        extra = ["-extra", ",".join(gp), "-maxextra", 20000 if thorough else 6000]
     if thorough:
         # programs of the scope generator (C04) as further not-designed inputs
         sc = ck.path("scope-cases.ndjson")
         ck.tlc("js", "ScopeSem", "ScopeSem_sim.cfg", label="ScopeSem programs as extra inputs (-simulate)", env={"VERIF_CASES": sc}, timeout=1500,
                simulate=20000, depth=12, seed=ck.seed, workers=1, count=False)
         ck.drive("scope", "replay", "-cases", sc, "-out", ck.path("scope-trace.ndjson"), "-sample", 1000000, "-inputs", ck.path("scope-programs.ndjson"), timeout=3000)
-        extra = ["-extra", ck.path("scope-programs.ndjson"), "-maxextra", 3000]
+        extra = ["-extra", ",".join(gp + [ck.path("scope-programs.ndjson")]), "-maxextra", 25000]
     r = ck.drive("printer", "record", "-out", ck.path("rec.ndjson"), "-seed", ck.seed, "-harvest", 100000 if thorough else 700,
                  "-combos", 6000 if thorough else 500, "-sample", 400 if thorough else 150, *extra, timeout=3000)
     if r["accepted"] < 1000:
